@@ -770,7 +770,11 @@ def c18_sweep_task(shard, tid, n, order, via, us_stride, us_offset, seed, tmpdir
                lows=lows, highs=highs, negs=negs, levels=levels)
     # ---- descendants of sets of 1-3 roots
     rootsets = [[u] for u in refs[:64]] + [rng.sample(refs, rng.randint(2, 3)) for _ in range(64)]
-    sets = [sorted(safe(lambda: b.descendants(rs), {0})) for rs in rootsets]
+    def _desc(rs):
+        form = rng.choice(['list', 'set', 'generator', 'iterator'])
+        arg = {'list': list(rs), 'set': set(rs), 'generator': (x for x in rs), 'iterator': iter(rs)}[form]
+        return b.descendants(arg)
+    sets = [sorted(safe(lambda: _desc(rs), {0})) for rs in rootsets]
     sf.row('row.descendants', len(rootsets), rootsets=rootsets, sets=sets)
     # ---- sizes: len(Function), dag_size
     sizes = []
@@ -788,7 +792,11 @@ def c18_sweep_task(shard, tid, n, order, via, us_stride, us_offset, seed, tmpdir
         for rs in rootsets[::4]:
             try:
                 if kind == 'nx':
-                    g = _bdd.to_nx(b, set(rs))
+                    # `roots`: "iterable of edges" -- every form, one-shot ones included
+                    form = rng.choice(['set', 'list', 'tuple', 'generator', 'iterator'])
+                    arg = {'set': set(rs), 'list': list(rs), 'tuple': tuple(rs),
+                           'generator': (x for x in rs), 'iterator': iter(rs)}[form]
+                    g = _bdd.to_nx(b, arg)
                     nodes = [[int(x), int(d['level'])] for x, d in g.nodes(data=True)]
                     edges = [[int(x), int(y), bool(d['value']), bool(d['complement'])]
                              for x, y, d in g.edges(data=True)]
